@@ -551,6 +551,10 @@ func handleSUNION(params internal.HandlerFuncParams) ([]byte, error) {
 
 	values := params.GetValues(params.Context, keys.ReadKeys)
 	for key, value := range values {
+		if value == nil {
+			// An absent key contributes no members.
+			continue
+		}
 		set, ok := value.(*Set)
 		if !ok {
 			return nil, fmt.Errorf("value at key %s is not a set", key)
@@ -587,6 +591,10 @@ func handleSUNIONSTORE(params internal.HandlerFuncParams) ([]byte, error) {
 
 	values := params.GetValues(params.Context, keys.ReadKeys)
 	for key, value := range values {
+		if value == nil {
+			// An absent key contributes no members.
+			continue
+		}
 		set, ok := value.(*Set)
 		if !ok {
 			return nil, fmt.Errorf("value at key %s is not a set", key)
